@@ -286,10 +286,27 @@ func (v *Verifier) LoadSpecFile(path string, pkgPath string, lib bool) error {
 	for _, s := range sf.Sorts {
 		if s[1] == "" {
 			v.c.Sorts.Unint(s[0])
+		}
+	}
+	for _, a := range sf.Aliases {
+		gt, err := v.lookupGoType(a[1])
+		if err != nil {
+			if lib {
+				continue // package not loaded for this property
+			}
+			return fmt.Errorf("%s: alias %s: %v", path, a[0], err)
+		}
+		v.aliases[a[0]] = gt
+	}
+	for _, s := range sf.Sorts {
+		if s[1] == "" {
 			continue
 		}
-		so, err := v.c.Sorts.ParseSort(s[1])
+		so, err := v.parseSortText(s[1])
 		if err != nil {
+			if lib {
+				continue
+			}
 			return fmt.Errorf("%s: sort %s: %v", path, s[0], err)
 		}
 		v.c.Sorts.byName[s[0]] = so
@@ -321,16 +338,6 @@ func (v *Verifier) LoadSpecFile(path string, pkgPath string, lib bool) error {
 			}
 		}
 		v.tm.abstract[t[0]] = at
-	}
-	for _, a := range sf.Aliases {
-		gt, err := v.lookupGoType(a[1])
-		if err != nil {
-			if lib {
-				continue // package not loaded for this property
-			}
-			return fmt.Errorf("%s: alias %s: %v", path, a[0], err)
-		}
-		v.aliases[a[0]] = gt
 	}
 	for _, w := range sf.Worlds {
 		so, _, err := v.resolveType(w[1])
@@ -431,6 +438,9 @@ func (v *Verifier) LoadSpecFile(path string, pkgPath string, lib bool) error {
 				}
 			}
 			v.c.DefineFun(d.Name, sb.String(), deps...)
+			if strings.Contains(d.SMT, "(_ map") || strings.Contains(d.SMT, "as const") {
+				v.c.defSigs[d.Name] = &FuncSig{Name: d.Name, Params: def.PSorts, Ret: so}
+			}
 		}
 		v.specFuncs[d.Name] = def
 	}
@@ -509,7 +519,7 @@ func (v *Verifier) resolveTypeOrSort(name string) (*Sort, types.Type, error) {
 	if err == nil {
 		return so, gt, nil
 	}
-	if s2, e2 := v.c.Sorts.ParseSort(name); e2 == nil {
+	if s2, e2 := v.parseSortText(name); e2 == nil {
 		return s2, nil, nil
 	}
 	return nil, nil, err
@@ -598,4 +608,43 @@ type ufDef struct {
 	PGoT   []types.Type
 	Ret    *Sort
 	RetGoT types.Type
+}
+
+// parseSortText parses an SMT sort expression whose atoms may be sort names, aliases or Go type names.
+func (v *Verifier) parseSortText(txt string) (*Sort, error) {
+	toks := tokenizeSexp(txt)
+	pos := 0
+	var rec func() (*Sort, error)
+	rec = func() (*Sort, error) {
+		if pos >= len(toks) {
+			return nil, fmt.Errorf("sort: unexpected end in %q", txt)
+		}
+		t := toks[pos]
+		pos++
+		if t == "(" {
+			if pos < len(toks) && toks[pos] == "Array" {
+				pos++
+				k, err := rec()
+				if err != nil {
+					return nil, err
+				}
+				e, err := rec()
+				if err != nil {
+					return nil, err
+				}
+				if pos >= len(toks) || toks[pos] != ")" {
+					return nil, fmt.Errorf("sort: expected ) in %q", txt)
+				}
+				pos++
+				return v.c.Sorts.Array(k, e), nil
+			}
+			return nil, fmt.Errorf("sort: unsupported %q", txt)
+		}
+		if s := v.c.Sorts.Lookup(t); s != nil {
+			return s, nil
+		}
+		s, _, err := v.resolveType(t)
+		return s, err
+	}
+	return rec()
 }
